@@ -17,7 +17,8 @@
 (*        skeleton.  All sequences up to length MaxAtoms in canonical variable order    *)
 (*        (atoms after the second restricted to LongKinds):                             *)
 (*        every order of the unify calls, occurs-check cycles of every length through   *)
-(*        fun and list, one variable used at two types, and solvable ones.              *)
+(*        fun and list, one variable used at two types, and solvable ones; the short    *)
+(*        ones also with x0 : nat, x1 : bool declared in the context.                   *)
 (* Invariants                                                                           *)
 (*   ContractSane       : an original is a good result of each of its erasures          *)
 (*   ModelTerminates, ModelGoodResult, ModelErasure (= ModelMeetsContract): the         *)
@@ -34,6 +35,7 @@ CONSTANTS MaxSize,           \* size bound of typed terms
           NV, MaxAtoms,      \* constraint skeletons: variables and atoms
           AtomKinds,         \* subset of {"A","E","L","F","P","N","B","M"}: kinds of the first two atoms
           LongKinds,         \* kinds of the atoms after the second
+          DeclAtoms,         \* conjunctions of at most this many atoms are also run with x0 : nat, x1 : bool declared
           Variants,          \* which erasures a typed state stands for: set of <<keep pattern, variables declared>>
           ExactOccursCheck,  \* the implementation's occurs check follows the bindings (exact reachability)
           AnnotVarCheck,     \* ... unifies annotated occurrences of a variable with its other occurrences
@@ -129,13 +131,18 @@ Canonical(seq) == UsedAfter(seq, 1, 0) # Bad
 VariantsAll == { <<k, d>> : k \in KeepPatterns, d \in BOOLEAN }
 VariantsQuick == { <<"none", TRUE>>, <<"vars", TRUE>>, <<"cb", TRUE>>, <<"none", FALSE>>, <<"all", FALSE>> }
 NoCtx == [vars |-> <<>>, svars |-> <<>>]
+XCtx == [vars |-> << <<"x0", NatT>>, <<"x1", BoolT>> >>, svars |-> <<>>]
 DeclCtx(t) == [vars |-> SetToSeq({ <<v[2], v[3]>> : v \in { v \in VarOccs(t) : v[1] = "var" } }),
                svars |-> SetToSeq({ <<v[2], v[3]>> : v \in { v \in VarOccs(t) : v[1] = "svar" } })]
 Case(f, keep, decl, skel, ctx, orig) == [fam |-> f, keep |-> keep, declared |-> decl, skel |-> skel, ctx |-> ctx, orig |-> orig]
 CasesOf(f, t, c) ==
   IF f = "typed"
   THEN { Case("typed", v[1], v[2], EraseP(t, v[1]), IF v[2] THEN DeclCtx(t) ELSE NoCtx, t) : v \in Variants }
-  ELSE IF c = <<>> THEN {} ELSE { Case("cs", "none", FALSE, t, NoCtx, NoTerm) }
+  ELSE IF c = <<>> THEN {}
+  ELSE { Case("cs", "none", FALSE, t, NoCtx, NoTerm) }
+       \* the same conjunction with x0 and x1 DECLARED in the context (bare and annotated uses of a declared variable,
+       \* in both orders, agreeing or not with the declaration)
+       \cup (IF Len(c) <= DeclAtoms THEN { Case("cs", "decl", TRUE, t, XCtx, NoTerm) } ELSE {})
 \* names of the contract clauses that the algorithm model fails on a case
 MOut(c) == Outcome(c.skel, c.ctx, Sig, Opt(ExactOccursCheck, AnnotVarCheck), TRUE)
 ModelClauses(c) ==
